@@ -1082,7 +1082,9 @@ where
                 let b: TCompactType = self.read_byte().await?.try_into()?;
                 match b {
                     TCompactType::BooleanTrue => Ok(true),
-                    TCompactType::BooleanFalse => Ok(false),
+                    // a false element is written as 2 by the Apache libraries and as 0
+                    // by a writer that follows the protocol document to the letter
+                    TCompactType::BooleanFalse | TCompactType::Stop => Ok(false),
                     unkn => Err(new_protocol_exception(
                         ProtocolExceptionKind::InvalidData,
                         format!("cannot convert {:?} into bool", unkn),
@@ -1644,7 +1646,9 @@ impl TInputProtocol for TCompactInputProtocol<&mut Bytes> {
                 let b: TCompactType = self.read_byte()?.try_into()?;
                 match b {
                     TCompactType::BooleanTrue => Ok(true),
-                    TCompactType::BooleanFalse => Ok(false),
+                    // a false element is written as 2 by the Apache libraries and as 0
+                    // by a writer that follows the protocol document to the letter
+                    TCompactType::BooleanFalse | TCompactType::Stop => Ok(false),
                     unkn => Err(new_protocol_exception(
                         ProtocolExceptionKind::InvalidData,
                         format!("cannot convert {:?} into bool", unkn),
